@@ -369,3 +369,108 @@ def run(repo, tier, contracts_of):
                     g["function"] = f"{DT}::{qn}"
                     obls.append(g)
     return {"obligations": obls, "functions": fns}
+
+
+# ==================================================================================================================
+# content-type helpers of the library under a contract (round 7): xlsx `_get_content_type(filename)`, ODF `guess_content_type(path)`
+# ==================================================================================================================
+XLSX = "sharepoint2text/parsing/extractors/ms_modern/xlsx_extractor.py"
+ODF_SHARED = "sharepoint2text/parsing/extractors/open_office/_shared.py"
+RASTER_CT = {"png": "image/png", "jpg": "image/jpeg", "jpeg": "image/jpeg", "gif": "image/gif", "bmp": "image/bmp"}
+MIME = z3.Function("mimetypes.guess_type.type", S, S)             # assumed library model: the type component of guess_type(path) ...
+MIME_NONE = z3.Function("mimetypes.guess_type.type_is_none", S, B)      # ... which is None for a name it does not know
+HELPERS = ((XLSX, "_get_content_type", "raster-extensions-map-to-their-content-type"),
+           (ODF_SHARED, "guess_content_type", "answer-of-mimetypes-else-octet-stream-never-empty"))
+
+
+def ext_of(f):
+    """text after the last dot (the term the engine's exact models of rsplit('.', 1) / rpartition('.') produce)"""
+    k = z3.LastIndexOf(f, z3.StringVal("."))
+    return z3.SubString(f, k + 1, z3.Length(f) - k - 1)
+
+
+def _m_guess_type(ex, st, args, kwargs, node):
+    from pyvc.values import VTuple, VUnk
+    if len(args) != 1 or kwargs or not isinstance(args[0], VStr):
+        raise ops.Unsupported(f"{ex.loc(node)} mimetypes.guess_type of something else than one str")
+    p = args[0].t
+    out = []
+    if ex.feasible(st.pc, MIME_NONE(p)):
+        out.append((st.fork().assume(MIME_NONE(p)), VTuple([NONE, VUnk("encoding")])))
+    if ex.feasible(st.pc, z3.Not(MIME_NONE(p))):
+        out.append((st.assume(z3.Not(MIME_NONE(p))), VTuple([VStr(MIME(p)), VUnk("encoding")])))
+    return out
+
+
+def _helper_spec(qual, pname):
+    def raster(c):
+        f, r = c.args[pname].t, c.result
+        if not isinstance(r, VStr):
+            return z3.BoolVal(False)
+        dotted_ = z3.Contains(f, z3.StringVal("."))
+        return z3.And([z3.Implies(z3.And(dotted_, LOWER(ext_of(f)) == z3.StringVal(k)), r.t == z3.StringVal(v)) for k, v in RASTER_CT.items()])
+
+    def guess(c):
+        p, r = c.args[pname].t, c.result
+        if not isinstance(r, VStr):
+            return z3.BoolVal(False)
+        known = z3.And(z3.Not(MIME_NONE(p)), MIME(p) != z3.StringVal(""))
+        return z3.And(z3.Implies(known, r.t == MIME(p)), z3.Implies(z3.Not(known), r.t == z3.StringVal("application/octet-stream")))
+    return raster if qual == "_get_content_type" else guess
+
+
+_VERIFIED = {}
+
+
+def helper_verified(repo, rel, qual, contracts_of):
+    """True when the content-type helper `qual` of module `rel` satisfies its contract on the current body (every obligation discharged by
+    the solver).  Used by the call sites (C14._ct_from_extension): `content_type=<helper>(<part name>)` then needs no reading of the helper's
+    shape.  Never raises; anything else than `all proved` is False (the caller falls back to the syntactic reader)."""
+    key = (repo, rel, qual)
+    if key not in _VERIFIED:
+        try:
+            lab = dict((q, l) for _r, q, l in HELPERS).get(qual)
+            r = run_helpers(repo, "quick", contracts_of, ((rel, qual, lab),)) if lab else {"obligations": []}
+            _VERIFIED[key] = len(r["obligations"]) >= 2 and all(o["status"] == "proved" and not o.get("bounded") for o in r["obligations"])
+        except Exception:  # noqa
+            _VERIFIED[key] = False
+    return _VERIFIED[key]
+
+
+def run_helpers(repo, tier, contracts_of, helpers=None):
+    """EXTRA body (never raises)."""
+    from pyvc.verify import p_str
+    obls, fns = [], []
+    for rel, qual, lab in (helpers or HELPERS):
+        base = f"C14/{rel.split('/')[-1]}::{qual}"
+        try:
+            mod = loader.module(rel, repo)
+            fn = mod.functions.get(qual)
+            if fn is None or len(fn.args.args) != 1:
+                raise ops.Unsupported("helper not found (or not a function of one name)")
+            reg = Registry()
+            for c in contracts_of(reg):
+                reg.add(c)
+            reg.ext_models["str.lower"] = _m_lower
+            reg.ext_models["mimetypes.guess_type"] = _m_guess_type
+            pn = fn.args.args[0].arg
+            c = FnContract(target=f"{rel}::{qual}", params=[(pn, p_str())], ensures=[(lab, _helper_spec(qual, pn))], raises=[], total=True,
+                           note="content type of a part name: the raster extensions of the property, case-insensitively (str.lower = LOWER)")
+            ex = C14Executor(mod, reg, Universe(repo))
+            ex.contract = c
+            ex.oid_prefix = base
+            got, _cov = verify.generate(ex, c, mod, fn)
+            ds = []
+            for _k, ob in got.items():
+                d = verify.discharge(ob, None, getattr(ex, "witness_terms", {}))
+                d.update(function=f"{rel}::{qual}")
+                ds.append(d)
+            if f"{base}/ensures#{lab}" not in {d["id"] for d in ds}:
+                raise ops.Unsupported("no normal outcome")
+            obls.extend(ds)
+            fns.append(dict(mod.fn_info(qual), obligations=len(ds)))
+        except Exception as e:  # noqa
+            g = ground_obligation(f"{base}/ensures#{lab}", False, f"not executable: {type(e).__name__}: {e}"[:300], rel, kind="ensures", definite=False)
+            g["function"] = f"{rel}::{qual}"
+            obls.append(g)
+    return {"obligations": obls, "functions": fns}
